@@ -68,6 +68,12 @@ func (w *Waiter) Next() GenericDataType {
 		data, ok := w.Diode.TryNext()
 		if !ok {
 			if w.isDone() {
+				// The context may have been cancelled after the TryNext
+				// above failed: data set before the cancellation must
+				// still be drained.
+				if data, ok := w.Diode.TryNext(); ok {
+					return data
+				}
 				return nil
 			}
 
